@@ -186,7 +186,15 @@ class BuiltinMixin:
         raise Unsupported(f'sorted of {v.ty}')
 
     def b_next(self, args, kw, st, exits, line):
-        raise Unsupported('next')
+        # next() on a generator modelled as a sequence: its first element, StopIteration when empty
+        s_ = self.seq_of(args[0], st)
+        if isinstance(s_.ty, TSeq) and s_.ty.elem is NONE:
+            if not self.spec_mode:
+                exits.append(Outcome('raise', st, self.exc_val('StopIteration'), line, 'next() of an empty iterator'))
+            return None
+        if not self.raise_if(st, z3.Length(s_.t) == 0, 'StopIteration', exits, line, 'next() of an empty iterator'):
+            return None
+        return V(s_.ty.elem, s_.t[0])
 
     # ------------------------------------------------------------------ methods on builtin values
     def call_method(self, recv, name, args, kw, st, exits, e, recv_expr):
